@@ -32,7 +32,8 @@
 (*   serialize:<res> parse:<res> parse-kind rebuild:<res> build:panic      *)
 (*   tok:<section>    parse(bytes_0) section token = token of the input    *)
 (*   rtok:<section>   parse(bytes_n) section token = parse(bytes_0) token  *)
-(*   grow             len(bytes_n) <= len(bytes_{n-1})                     *)
+(*   grow             len(bytes_n) <= len(bytes_{n-1}), every version      *)
+(*                    (DRIFT: from round 2 on the length is a fixpoint)    *)
 (***************************************************************************)
 EXTENDS AdtLayout, SequencesExt, Json, IOUtils, TLCExt
 
@@ -137,7 +138,8 @@ T_Build == /\ Ev.ev = "Build" /\ tph = "build"
 T_File  == /\ Ev.ev = "File" /\ tph = "file" /\ Ev.round = tround
            /\ IF Ev.res # "ok"
               THEN Report(<<"serialize:" \o Ev.res>>, << >>) /\ tph' = "end" /\ tplen' = tplen
-              ELSE /\ Report(LayoutFails(FO(Ev), twver) \o Chk(tround = 0 \/ Ev.len <= tplen, "grow"), LayoutDrift(FO(Ev), twver))
+              ELSE /\ Report(LayoutFails(FO(Ev), twver) \o Chk(tround = 0 \/ Ev.len <= tplen, "grow"),
+                             LayoutDrift(FO(Ev), twver) \o Chk(tround < 2 \/ Ev.len = tplen, "length-not-a-fixpoint-after-round-1"))
                    /\ tph' = "parse" /\ tplen' = Ev.len
            /\ UNCHANGED <<tshape, tinp, tfirst, tround, twver>>
 T_Parse == /\ Ev.ev = "Parse" /\ tph = "parse" /\ Ev.round = tround
